@@ -287,7 +287,7 @@ def rW : AList (NT Nat Unit) (AList Sym Rat) :=
 def rE : Env Nat Unit Rat := { G := rG, W := rW, ops := probOps 0, filter := fun _ => true }
 def rFcc : Prog := .node rF [.node rc [], .node rc []]
 
-/-- heap search yields `(F c c)` (63/256), then `b` (1/64) **before** `(F (g (F c c)) c)` (3969/65536 > 1/64):
+/-- (finding C03-F3) heap search yields `(F c c)` (63/256), then `b` (1/64) **before** `(F (g (F c c)) c)` (3969/65536 > 1/64):
     while `__add_successors__((F c c), S0)` is still running (the successors of `(F c c)` are not pushed
     yet), the nested `query(S1, c)` pops `(g (F c c))`, whose `__add_successors__` calls
     `query(S0, (F c c))`, which pops the heap of `S0` too early.  Same output on the implementation. -/
